@@ -295,3 +295,6 @@ M("C18", "C18.recorded", _IV, "                choice = Options(enabled)", "    
 M("C18", "C18.divergence", _SI, "            return diff > self.divergenceTolerance", "            return not math.isclose(diff, 0, abs_tol=self.divergenceTolerance)", "c18-divergence-isclose")
 M("C18", "C18.divergence", _SI, "            diff = (actual - expected).norm()", "            diff = (actual - expected).x", "c18-divergence-one-component")
 RF("C18", _SI, "        if diff:\n            return diff > self.divergenceTolerance\n        else:\n            return actual != expected", "        if not diff:\n            return actual != expected\n        return self.divergenceTolerance < diff", "c18-rf-divergence-restructured")
+M("C19", "C19.rewind", _IV, "        self.checkPreconditions(self._agent, *self._args, **self._kwargs)\n        self.checkInvariants(self._agent, *self._args, **self._kwargs)\n\n    def _isEnabledForAgent", "        import random as _r\n        _st = _r.getstate()\n        self.checkPreconditions(self._agent, *self._args, **self._kwargs)\n        self.checkInvariants(self._agent, *self._args, **self._kwargs)\n        _r.setstate(_st)\n\n    def _isEnabledForAgent", "c19-guards-rewind-rng")
+M("C19", "C19.enabled", _IV, "        try:\n            self._agent = agent  # in case `self` is used in a precondition\n            self._checkAllPreconditions()\n            return True", "        if getattr(self, '_wasEnabled', False):\n            return True\n        try:\n            self._agent = agent  # in case `self` is used in a precondition\n            self._checkAllPreconditions()\n            self._wasEnabled = True\n            return True", "c19-eligibility-cached")
+RF("C19", _IV, "                choice = Options(enabled)\n            return choice", "                return Options(enabled)\n            return choice", "c19-rf-return-options-directly")
